@@ -1,4 +1,5 @@
 import Zc.Proofs.BrowserCb
+import Zc.GenFacts.BrowserCb
 import Zc.Props.C06
 /-! # C04 — browser callbacks alternate add/remove and always match the cache
 
@@ -9,12 +10,16 @@ periodic purge (`Browser.onPurge`).  `str.lower` and `possible_types` are arbitr
 theorems (`lower`, `possible`); the driver instantiates them with ASCII lowering and the model of
 `possible_types`.
 
-Proved for all inputs: the order-independent outcome of the pending-callback dedup
-(`C04_enqueue_precedence`, `C04_pending_outcome`), that callbacks are delivered only once the cache holds
-the triggering records (`C04_after_cache`), and that for a well-formed datagram the Added/Removed
-callbacks are exactly the changes of the cache's pointer records (`C04_datagram_exact`).  The two
-history-level statements (`C04_alternates`, `C04_live_eq_cache`) are stated in full and **not proved**
-here (see `C04_history_partial` at the end for what is proved towards them and what is missing). -/
+Proved, all at full strength: the order-independent outcome of the pending-callback dedup
+(`C04_enqueue_precedence`, `C04_pending_outcome`); callbacks are delivered only once the cache holds the
+triggering records (`C04_after_cache`); each kind of step — a well-formed datagram (`C04_datagram_exact`), the
+periodic purge (`purge_step_exact`), the initial replay at browser creation (`start_exact`) — fires exactly the
+Added/Removed callbacks that correspond to the change of the cache's pointer records; and, by induction over the
+history, the two sentences of the property: `C04_alternates` and `C04_live_eq_cache`, for every history that
+satisfies the quantifier's restrictions (`WFHistory`: well-formed browsed types, every datagram before and after the
+browser's creation well-formed, no expired-but-unpurged pointer record cached at creation).  The purge step uses the
+provenance invariant `CachedWF` (every cached pointer record is spelled as some datagram record was), itself proved
+along every history (`cachedWF_after`). -/
 namespace Zc
 
 section
@@ -65,6 +70,18 @@ theorem mem_complete_iff (b : Browser) (hn : (pendingKeys b.pending).Nodup) (cb 
     exact pendingGet_of_mem _ hn hkv
   · intro h
     exact ⟨((cb.name, cb.type), cb.change), mem_of_pendingGet _ h, rfl⟩
+
+/-- … and no callback is fired twice -/
+theorem complete_nodup (b : Browser) (hn : (pendingKeys b.pending).Nodup) : (Browser.complete b).2.Nodup := by
+  unfold Browser.complete
+  simp only []
+  unfold pendingKeys at hn
+  rw [List.Nodup, List.pairwise_map] at hn ⊢
+  exact hn.imp (fun hab heq => hab (by
+    have h1 := congrArg Callback.name heq
+    have h2 := congrArg Callback.type heq
+    simp only [] at h1 h2
+    exact Prod.ext h1 h2))
 
 /-- **C04 (callbacks come after the cache update).**  After any history, when a datagram makes a browser with
 nothing pending deliver `add_service(type, name)`, the triggering pointer record — a record of the datagram with
@@ -204,7 +221,8 @@ theorem C04_datagram_exact (evs : List Event) (b : Browser) (hb : b.pending = []
           ∧ ((∃ cb ∈ o.callbacks, cb.change = .removed ∧ cb.type = t ∧ lower cb.name = lower a)
               ↔ (((cacheAfter lower evs).getUnique lower (ptrRec t a)).isSome = true ∧ o.cache.getUnique lower (ptrRec t a) = none)))
       ∧ (∀ cb ∈ o.callbacks, ∀ cb' ∈ o.callbacks, cb.change ≠ .updated → cb'.change ≠ .updated →
-          cb.type = cb'.type → lower cb.name = lower cb'.name → cb = cb') := by
+          cb.type = cb'.type → lower cb.name = lower cb'.name → cb = cb')
+      ∧ o.callbacks.Nodup := by
   obtain ⟨out, hout, _, hnone, hcalls⟩ := C06_calls lower evs now recs
   obtain ⟨out', hout', hpost⟩ := C06_post_state lower evs now recs
   have : out' = out := by rw [hout] at hout'; exact (Except.ok.inj hout').symm
@@ -214,7 +232,7 @@ theorem C04_datagram_exact (evs : List Event) (b : Browser) (hb : b.pending = []
   simp only [bind, Except.bind]
   cases hc1 : out'.call1 with
   | none =>
-    refine ⟨_, rfl, ?_, fun cb hcb => by cases hcb⟩
+    refine ⟨_, rfl, ?_, (fun cb hcb => by cases hcb), List.nodup_nil⟩
     have hall := hnone.1 hc1
     intro t ht a
     have hp := hpost (ptrRec t a)
@@ -317,7 +335,7 @@ theorem C04_datagram_exact (evs : List Event) (b : Browser) (hb : b.pending = []
         · simp only []; rw [isExpired_asStored]; simp [hz]
         · change t ∈ b.types.filter (fun t' => (possible r.name).contains t')
           rw [hwt.exact r.name (hwd.ptr r hr hty).2.2]; simp [hnm]
-    refine ⟨_, rfl, ?_, ?_⟩
+    refine ⟨_, rfl, ?_, ?_, complete_nodup _ hgood.2⟩
     · intro t ht a
       simp only []
       have hp := hpost (ptrRec t a)
@@ -441,13 +459,13 @@ theorem C04_datagram_exact (evs : List Event) (b : Browser) (hb : b.pending = []
 
 /-! ### histories -/
 
-/-- cache + one browser (created on the empty cache) + the callback batches delivered so far, oldest first -/
+/-- cache + one browser + the callback batches delivered so far, oldest first -/
 structure BrowserRun where
   cache : Cache := {}
   browser : Browser
   batches : List (List Callback) := []
 
-/-- one event; an exception would leave everything as it was (never happens for datagrams: `C06_post_state`) -/
+/-- one event; an exception would leave everything as it was (it never happens: `C06_post_state`, `C05_purge_exact`) -/
 def BrowserRun.step (st : BrowserRun) (ev : Event) : BrowserRun :=
   match (match ev with
     | .datagram now recs => Browser.onDatagram lower possible st.cache st.browser now recs
@@ -455,8 +473,13 @@ def BrowserRun.step (st : BrowserRun) (ev : Event) : BrowserRun :=
   | .ok o => { cache := o.cache, browser := o.browser, batches := st.batches ++ [o.callbacks] }
   | .error _ => st
 
-def browserRun (types : List String) (evs : List Event) : BrowserRun :=
-  evs.foldl (BrowserRun.step lower possible) { browser := { types := types } }
+/-- the cache lives through `pre`; then the browser is created at `t0` (`async_add_listener` with the PTR
+questions, i.e. the initial replay of the cached records — its callbacks are the first batch); then `evs` -/
+def browserRunFrom (pre : List Event) (t0 : Ms) (types : List String) (evs : List Event) : BrowserRun :=
+  evs.foldl (BrowserRun.step lower possible)
+    { cache := cacheAfter lower pre,
+      browser := (Browser.start lower possible (cacheAfter lower pre) t0 types).1,
+      batches := [(Browser.start lower possible (cacheAfter lower pre) t0 types).2] }
 
 /-- the Added/Removed callbacks delivered for `(t, a)` (instance compared case-insensitively), in order -/
 def changesFor (batches : List (List Callback)) (t a : String) : List Change :=
@@ -473,80 +496,731 @@ def alternates : List Change → Bool
 def reportedLive (batches : List (List Callback)) (t a : String) : Bool :=
   (changesFor lower batches t a).getLast? = some .added
 
-/-- the restriction of the quantifier on a whole history -/
-def WFHistory (types : List String) (evs : List Event) : Prop :=
-  WFTypes lower possible types ∧ ∀ ev ∈ evs, match ev with
-    | .datagram _ recs => WFDatagram lower types recs
-    | .purge _ => True
+/-- the quantifier's restriction on one event -/
+def WFEvent (types : List String) : Event → Prop
+  | .datagram _ recs => WFDatagram lower types recs
+  | .purge _ => True
 
-/-- **C04, full statement (alternation)** — NOT proved here, see `C04_history_partial` -/
+/-- the quantifier's restriction on a whole history: well-formed browsed types, every datagram (before and after
+the browser's creation) well-formed, and the browser created while no expired-but-unpurged pointer record is cached -/
+structure WFHistory (types : List String) (pre : List Event) (t0 : Ms) (evs : List Event) : Prop where
+  wfTypes : WFTypes lower possible types
+  events : ∀ ev ∈ pre ++ evs, WFEvent lower types ev
+  fresh : ∀ q e, (cacheAfter lower pre).getUnique lower q = some e → e.type = 12 → e.isExpired t0 = false
+
+/-- **C04, full statement (alternation)** -/
 def C04_alternates_statement : Prop :=
-  ∀ types evs, WFHistory lower possible types evs → ∀ t ∈ types, ∀ a,
-    alternates (changesFor lower (browserRun lower possible types evs).batches t a) = true
+  ∀ types pre t0 evs, WFHistory lower possible types pre t0 evs → ∀ t ∈ types, ∀ a,
+    alternates (changesFor lower (browserRunFrom lower possible pre t0 types evs).batches t a) = true
 
-/-- **C04, full statement (live set = cached pointer records)** — NOT proved here, see `C04_history_partial` -/
+/-- **C04, full statement (live set = cached pointer records)** -/
 def C04_live_eq_cache_statement : Prop :=
-  ∀ types evs, WFHistory lower possible types evs → ∀ t ∈ types, ∀ a,
-    reportedLive lower (browserRun lower possible types evs).batches t a
-      = ((browserRun lower possible types evs).cache.getUnique lower (ptrRec t a)).isSome
+  ∀ types pre t0 evs, WFHistory lower possible types pre t0 evs → ∀ t ∈ types, ∀ a,
+    reportedLive lower (browserRunFrom lower possible pre t0 types evs).batches t a
+      = ((browserRunFrom lower possible pre t0 types evs).cache.getUnique lower (ptrRec t a)).isSome
 
-/-- **C04 (history level, partial).**  What is proved towards the two statements above: along any history the
-browser is quiescent between events (nothing pending) and keeps its types — so `C04_datagram_exact` applies
-to *every datagram step of every history*: at each such step the Added/Removed callbacks are exactly the
-changes of the cached pointer records, at most one per (type, instance).
+/-! #### alternation bookkeeping -/
 
-Missing for the full statements: (i) the same exactness for the purge step (`Browser.onPurge`), which needs
-the provenance invariant "every cached pointer record is spelled as some datagram record was", so that the
-purged record's owner name matches its browsed type; (ii) the induction that turns per-step exactness into
-`alternates`/`reportedLive = cached` (`changesFor` of an appended batch).  Both are exercised on every run by
-the correspondence check and the Python oracle of `harness/c04.py` (stage O evaluates exactly
-`C04_alternates_statement` and `C04_live_eq_cache_statement` on the implementation's callbacks). -/
-theorem C04_history_partial (types : List String) (evs : List Event) :
-    (browserRun lower possible types evs).browser.pending = []
-    ∧ (browserRun lower possible types evs).browser.types = types := by
-  unfold browserRun
-  have gen : ∀ (st : BrowserRun), st.browser.pending = [] ∧ st.browser.types = types →
-      (evs.foldl (BrowserRun.step lower possible) st).browser.pending = [] ∧ (evs.foldl (BrowserRun.step lower possible) st).browser.types = types := by
+theorem alternates_append_added (L : List Change) (h : alternates L = true) (hl : L.getLast? ≠ some .added) :
+    alternates (L ++ [.added]) = true := by
+  fun_induction alternates L with
+  | case1 => rfl
+  | case2 => exact absurd rfl hl
+  | case3 rest ih =>
+    cases rest with
+    | nil => rfl
+    | cons x xs =>
+      have : (Change.added :: Change.removed :: x :: xs).getLast? = (x :: xs).getLast? := by simp [List.getLast?_cons_cons]
+      rw [this] at hl
+      exact ih h hl
+  | case4 L h1 h2 h3 => cases h
+
+theorem alternates_append_removed (L : List Change) (h : alternates L = true) (hl : L.getLast? = some .added) :
+    alternates (L ++ [.removed]) = true := by
+  fun_induction alternates L with
+  | case1 => cases hl
+  | case2 => rfl
+  | case3 rest ih =>
+    cases rest with
+    | nil => simp at hl
+    | cons x xs =>
+      have : (Change.added :: Change.removed :: x :: xs).getLast? = (x :: xs).getLast? := by simp [List.getLast?_cons_cons]
+      rw [this] at hl
+      exact ih h hl
+  | case4 L h1 h2 h3 => cases h
+
+theorem changesFor_append (batches : List (List Callback)) (cbs : List Callback) (t a : String) :
+    changesFor lower (batches ++ [cbs]) t a
+      = changesFor lower batches t a
+        ++ (cbs.filter (fun cb => decide (cb.change ≠ .updated) && decide (cb.type = t) && decide (lower cb.name = lower a))).map (fun cb => cb.change) := by
+  unfold changesFor
+  simp [List.flatten_append, List.filter_append, List.map_append]
+
+/-- what it means for one batch of callbacks to be exactly the change of the cached pointer records
+(`before`/`after`: is the pointer record `t → a` cached?) -/
+structure BatchExact (types : List String) (cbs : List Callback) (before after : String → String → Bool) : Prop where
+  added : ∀ t ∈ types, ∀ a : String, (∃ cb ∈ cbs, cb.change = .added ∧ cb.type = t ∧ lower cb.name = lower a)
+      ↔ (before t a = false ∧ after t a = true)
+  removed : ∀ t ∈ types, ∀ a : String, (∃ cb ∈ cbs, cb.change = .removed ∧ cb.type = t ∧ lower cb.name = lower a)
+      ↔ (before t a = true ∧ after t a = false)
+  unique : ∀ cb ∈ cbs, ∀ cb' ∈ cbs, cb.change ≠ .updated → cb'.change ≠ .updated →
+      cb.type = cb'.type → lower cb.name = lower cb'.name → cb = cb'
+  nodup : cbs.Nodup
+
+theorem length_le_one_of_all_eq {α} (l : List α) (hn : l.Nodup) (h : ∀ x ∈ l, ∀ y ∈ l, x = y) : l = [] ∨ ∃ x, l = [x] := by
+  match l, hn, h with
+  | [], _, _ => exact Or.inl rfl
+  | [x], _, _ => exact Or.inr ⟨x, rfl⟩
+  | x :: y :: t, hn, h =>
+    have := h x (by simp) y (by simp)
+    subst this
+    simp at hn
+
+/-- one exact batch keeps "alternates" and "reported live = cached" -/
+theorem live_step {types : List String} {batches : List (List Callback)} {cbs : List Callback}
+    {before after : String → String → Bool} (hex : BatchExact lower types cbs before after)
+    {t : String} (ht : t ∈ types) (a : String)
+    (halt : alternates (changesFor lower batches t a) = true)
+    (hlive : reportedLive lower batches t a = before t a) :
+    alternates (changesFor lower (batches ++ [cbs]) t a) = true
+    ∧ reportedLive lower (batches ++ [cbs]) t a = after t a := by
+  unfold reportedLive at *
+  rw [changesFor_append]
+  generalize hL : changesFor lower batches t a = L at *
+  -- the batch contributes at most one change
+  have hone := length_le_one_of_all_eq
+    (cbs.filter (fun cb => decide (cb.change ≠ .updated) && decide (cb.type = t) && decide (lower cb.name = lower a)))
+    (List.Nodup.sublist List.filter_sublist hex.nodup)
+    (by
+      intro x hx y hy
+      rw [List.mem_filter] at hx hy
+      simp only [Bool.and_eq_true, decide_eq_true_eq] at hx hy
+      exact hex.unique x hx.1 y hy.1 hx.2.1.1 hy.2.1.1 (hx.2.1.2.trans hy.2.1.2.symm) (hx.2.2.trans hy.2.2.symm))
+  rcases hone with hnil | ⟨x, hx⟩
+  · -- nothing for (t, a): the cache did not change for it
+    rw [hnil]
+    simp only [List.map_nil, List.append_nil]
+    refine ⟨halt, ?_⟩
+    rw [hlive]
+    have hna : ¬ (before t a = false ∧ after t a = true) := by
+      intro hc
+      obtain ⟨cb, hcb, h1, h2, h3⟩ := (hex.added t ht a).2 hc
+      have : cb ∈ cbs.filter (fun cb => decide (cb.change ≠ .updated) && decide (cb.type = t) && decide (lower cb.name = lower a)) := by
+        rw [List.mem_filter]; simp [hcb, h1, h2, h3]
+      rw [hnil] at this; cases this
+    have hnr : ¬ (before t a = true ∧ after t a = false) := by
+      intro hc
+      obtain ⟨cb, hcb, h1, h2, h3⟩ := (hex.removed t ht a).2 hc
+      have : cb ∈ cbs.filter (fun cb => decide (cb.change ≠ .updated) && decide (cb.type = t) && decide (lower cb.name = lower a)) := by
+        rw [List.mem_filter]; simp [hcb, h1, h2, h3]
+      rw [hnil] at this; cases this
+    cases hb : before t a <;> cases ha : after t a <;> simp_all
+  · have hxm : x ∈ cbs.filter (fun cb => decide (cb.change ≠ .updated) && decide (cb.type = t) && decide (lower cb.name = lower a)) := by
+      rw [hx]; simp
+    rw [List.mem_filter] at hxm
+    simp only [Bool.and_eq_true, decide_eq_true_eq] at hxm
+    obtain ⟨hxc, ⟨hxu, hxt⟩, hxn⟩ := hxm
+    rw [hx]
+    simp only [List.map_cons, List.map_nil]
+    cases hch : x.change with
+    | updated => exact absurd hch hxu
+    | added =>
+      obtain ⟨hb, ha⟩ := (hex.added t ht a).1 ⟨x, hxc, hch, hxt, hxn⟩
+      have hl : L.getLast? ≠ some .added := by
+        intro hc
+        rw [hb] at hlive
+        simp [hc] at hlive
+      exact ⟨alternates_append_added L halt hl, by simp [ha]⟩
+    | removed =>
+      obtain ⟨hb, ha⟩ := (hex.removed t ht a).1 ⟨x, hxc, hch, hxt, hxn⟩
+      have hl : L.getLast? = some .added := by
+        rw [hb] at hlive
+        simpa using hlive
+      exact ⟨alternates_append_removed L halt hl, by simp [ha]⟩
+
+/-! #### the cache along a history -/
+
+theorem cacheAfter_snoc (hist : List Event) (ev : Event) :
+    cacheAfter lower (hist ++ [ev]) = stepEvent lower (Cache.ops lower) (cacheAfter lower hist) ev := by
+  unfold cacheAfter runEvents
+  rw [List.foldl_append]; rfl
+
+/-- provenance: every cached type-PTR record is a class-IN pointer record whose owner name is spelled exactly
+as a browsed type (because every datagram record was) -/
+def CachedWF (types : List String) (c : Cache) : Prop :=
+  ∀ q e, c.getUnique lower q = some e → e.type = 12 → (∃ a, e.rdata = .ptr a) ∧ e.class_ = 1 ∧ e.name ∈ types
+
+variable {lower}
+
+theorem Flat.getUnique_of_mem {s : List Rec} (hw : Flat.WF lower s) {e q : Rec} (he : e ∈ s) (hid : e.ident lower = q.ident lower) :
+    Flat.getUnique lower s q = some e := by
+  cases hg : Flat.getUnique lower s q with
+  | none =>
+    have := (Flat.getUnique_eq_none s q).1 hg
+    have hp : Flat.pres lower s q = true := List.any_eq_true.2 ⟨e, he, (beq_iff_ident lower e q).2 hid⟩
+    rw [hp] at this; cases this
+  | some e' =>
+    have := hw.eq_of_ident (Flat.getUnique_mem hg) he ((Flat.getUnique_ident hg).trans hid.symm)
+    rw [this]
+
+theorem Flat.getUnique_filter_expired {s : List Rec} (hw : Flat.WF lower s) (now : Ms) (q : Rec) :
+    Flat.getUnique lower (s.filter (fun e => !(e.isExpired now))) q
+      = match Flat.getUnique lower s q with
+        | some e => if e.isExpired now then none else some e
+        | none => none := by
+  cases hg : Flat.getUnique lower s q with
+  | none =>
+    simp only []
+    rw [Flat.getUnique_eq_none] at hg ⊢
+    rw [Bool.eq_false_iff] at hg ⊢
+    intro hc
+    obtain ⟨x, hx, hb⟩ := List.any_eq_true.1 hc
+    exact hg (List.any_eq_true.2 ⟨x, (List.mem_filter.1 hx).1, hb⟩)
+  | some e =>
+    simp only []
+    by_cases hx : e.isExpired now = true
+    · rw [if_pos hx, Flat.getUnique_eq_none, Bool.eq_false_iff]
+      intro hc
+      obtain ⟨x, hxm, hb⟩ := List.any_eq_true.1 hc
+      have hxs := List.mem_filter.1 hxm
+      have : x = e := hw.eq_of_ident hxs.1 (Flat.getUnique_mem hg) (((beq_iff_ident lower x q).1 hb).trans (Flat.getUnique_ident hg).symm)
+      rw [this, hx] at hxs
+      simp at hxs
+    · rw [if_neg hx]
+      exact Flat.getUnique_filter_keep s _ hg (by simpa using hx)
+
+variable (lower)
+
+theorem cachedWF_datagram {types : List String} (hist : List Event) (h : CachedWF lower types (cacheAfter lower hist))
+    (now : Ms) (recs : List Rec) (hwd : WFDatagram lower types recs) :
+    CachedWF lower types (cacheAfter lower (hist ++ [.datagram now recs])) := by
+  obtain ⟨out, hout, hpost⟩ := C06_post_state lower hist now recs
+  rw [cacheAfter_snoc]
+  simp only [stepEvent, hout]
+  intro q e' hq hty
+  have hp := hpost q
+  unfold PostState at hp
+  rw [hq] at hp
+  cases hb : (cacheAfter lower hist).getUnique lower q with
+  | none =>
+    rw [hb] at hp
+    simp only [] at hp
+    cases hl : lastLive lower recs q with
+    | none => rw [hl] at hp; cases hp
+    | some r =>
+      rw [hl] at hp
+      simp only [Option.map_some, Option.some.injEq] at hp
+      subst hp
+      have hr : r ∈ recs := by
+        have := List.mem_of_getLast? hl
+        exact (List.mem_filter.1 (List.mem_filter.1 this).1).1
+      exact hwd.ptr r hr hty
+  | some e =>
+    rw [hb] at hp
+    simp only [] at hp
+    have hshape := h q e hb
+    by_cases hg : hasGoodbye lower recs q = true
+    · rw [if_pos hg] at hp; cases hp
+    · rw [if_neg hg] at hp
+      obtain ⟨e'', he'', hr⟩ := hp
+      simp only [Option.some.injEq] at he''
+      subst he''
+      unfold Refreshed at hr
+      cases hl : lastLive lower recs e with
+      | some r =>
+        rw [hl] at hr; simp only [] at hr
+        subst hr
+        exact hshape hty
+      | none =>
+        rw [hl] at hr; simp only [] at hr
+        by_cases hf : Flushed lower now recs e
+        · have := hr.1 hf; subst this; exact hshape hty
+        · have := hr.2 hf; subst this; exact hshape hty
+
+/-- the purge step, as the cache sees it -/
+theorem purge_facts (hist : List Event) (now : Ms) :
+    ∃ c' l, expire (Cache.ops lower) (cacheAfter lower hist) now = .ok (c', l)
+      ∧ cacheAfter lower (hist ++ [.purge now]) = c'
+      ∧ (∀ e, e ∈ l ↔ (e ∈ specAfter lower hist ∧ e.isExpired now = true))
+      ∧ (∀ q, c'.getUnique lower q = match (cacheAfter lower hist).getUnique lower q with
+                | some e => if e.isExpired now then none else some e
+                | none => none) := by
+  have h0 := (Refines.empty lower).runEvents (by simp [Flat.WF]) hist
+  obtain ⟨c', l, hc, hp, hr⟩ := h0.1.expire h0.2 now
+  refine ⟨c', l, hc, ?_, ?_, ?_⟩
+  · rw [cacheAfter_snoc]
+    simp only [stepEvent]
+    unfold cacheAfter
+    rw [hc]
+  · intro e
+    rw [hp.mem_iff, List.mem_filter]; rfl
+  · intro q
+    rw [hr.getUnique q, Flat.getUnique_filter_expired h0.2 now q]
+    unfold cacheAfter
+    rw [h0.1.getUnique q]
+
+theorem cachedWF_purge {types : List String} (hist : List Event) (h : CachedWF lower types (cacheAfter lower hist)) (now : Ms) :
+    CachedWF lower types (cacheAfter lower (hist ++ [.purge now])) := by
+  obtain ⟨c', l, _, hc, _, hget⟩ := purge_facts lower hist now
+  rw [hc]
+  intro q e hq hty
+  rw [hget q] at hq
+  cases hb : (cacheAfter lower hist).getUnique lower q with
+  | none => rw [hb] at hq; cases hq
+  | some e0 =>
+    rw [hb] at hq
+    simp only [] at hq
+    split at hq
+    · cases hq
+    · cases hq; exact h q e hb hty
+
+theorem cachedWF_after {types : List String} (hist : List Event) (hwf : ∀ ev ∈ hist, WFEvent lower types ev) :
+    CachedWF lower types (cacheAfter lower hist) := by
+  have gen : ∀ (evs h0 : List Event), CachedWF lower types (cacheAfter lower h0) → (∀ ev ∈ evs, WFEvent lower types ev) →
+      CachedWF lower types (cacheAfter lower (h0 ++ evs)) := by
+    intro evs
     induction evs with
-    | nil => intro st h; exact h
+    | nil => intro h0 h _; simpa using h
     | cons ev rest ih =>
-      intro st h
-      simp only [List.foldl_cons]
-      apply ih
+      intro h0 h hw
+      have hstep : CachedWF lower types (cacheAfter lower (h0 ++ [ev])) := by
+        have hev := hw ev (by simp)
+        cases ev with
+        | datagram now recs => exact cachedWF_datagram lower h0 h now recs hev
+        | purge now => exact cachedWF_purge lower h0 h now
+      have := ih (h0 ++ [ev]) hstep (fun e he => hw e (by simp [he]))
+      simpa using this
+  have h0 : CachedWF lower types (cacheAfter lower []) := by
+    intro q e hq
+    simp [cacheAfter, runEvents, Cache.getUnique, Index.find?] at hq
+  simpa using gen hist [] h0 hwf
+
+/-! #### each kind of step is exact -/
+
+/-- the datagram step of a run -/
+theorem datagram_step_exact {types : List String} (hwt : WFTypes lower possible types) (hist : List Event)
+    (b : Browser) (hb : b.pending = []) (hbt : b.types = types) (now : Ms) (recs : List Rec) (hwd : WFDatagram lower types recs) :
+    ∃ o, Browser.onDatagram lower possible (cacheAfter lower hist) b now recs = .ok o
+      ∧ o.cache = cacheAfter lower (hist ++ [.datagram now recs]) ∧ o.browser.pending = [] ∧ o.browser.types = types
+      ∧ BatchExact lower types o.callbacks
+          (fun t a => ((cacheAfter lower hist).getUnique lower (ptrRec t a)).isSome)
+          (fun t a => (o.cache.getUnique lower (ptrRec t a)).isSome) := by
+  subst hbt
+  obtain ⟨o, ho, hex, huniq, hnd⟩ := C04_datagram_exact lower possible hist b hb hwt now recs hwd
+  refine ⟨o, ho, ?_, ?_, ?_, ?_⟩
+  · -- the cache is the cache after the longer history
+    rw [cacheAfter_snoc]
+    unfold Browser.onDatagram at ho
+    cases hi : ingest lower (Cache.ops lower) (cacheAfter lower hist) now recs with
+    | error e => rw [hi] at ho; cases ho
+    | ok out =>
+      rw [hi] at ho
+      simp only [bind, Except.bind] at ho
+      simp only [stepEvent, hi]
+      cases hc : out.call1 with
+      | none => rw [hc] at ho; cases ho; rfl
+      | some call => rw [hc] at ho; cases ho; rfl
+  · unfold Browser.onDatagram at ho
+    cases hi : ingest lower (Cache.ops lower) (cacheAfter lower hist) now recs with
+    | error e => rw [hi] at ho; cases ho
+    | ok out =>
+      rw [hi] at ho
+      simp only [bind, Except.bind] at ho
+      cases hc : out.call1 with
+      | none => rw [hc] at ho; cases ho; exact hb
+      | some call => rw [hc] at ho; cases ho; rfl
+  · unfold Browser.onDatagram at ho
+    cases hi : ingest lower (Cache.ops lower) (cacheAfter lower hist) now recs with
+    | error e => rw [hi] at ho; cases ho
+    | ok out =>
+      rw [hi] at ho
+      simp only [bind, Except.bind] at ho
+      cases hc : out.call1 with
+      | none => rw [hc] at ho; cases ho; rfl
+      | some call => rw [hc] at ho; cases ho; exact Browser.updateRecords_types lower possible rfl _ _ _
+  · refine ⟨fun t ht a => ?_, fun t ht a => ?_, huniq, hnd⟩
+    · rw [(hex t ht a).1]
+      cases (cacheAfter lower hist).getUnique lower (ptrRec t a) <;> simp
+    · rw [(hex t ht a).2]
+      cases o.cache.getUnique lower (ptrRec t a) <;> simp
+
+/-- the purge step of a run: only Removed, exactly for the purged pointer records -/
+theorem purge_step_exact {types : List String} (hwt : WFTypes lower possible types) (hist : List Event)
+    (hcw : CachedWF lower types (cacheAfter lower hist))
+    (b : Browser) (hb : b.pending = []) (hbt : b.types = types) (now : Ms) :
+    ∃ o, Browser.onPurge lower possible (cacheAfter lower hist) b now = .ok o
+      ∧ o.cache = cacheAfter lower (hist ++ [.purge now]) ∧ o.browser.pending = [] ∧ o.browser.types = types
+      ∧ BatchExact lower types o.callbacks
+          (fun t a => ((cacheAfter lower hist).getUnique lower (ptrRec t a)).isSome)
+          (fun t a => (o.cache.getUnique lower (ptrRec t a)).isSome) := by
+  subst hbt
+  obtain ⟨c', l, hexp, hc', hmem, hget⟩ := purge_facts lower hist now
+  have h0 := (Refines.empty lower).runEvents (by simp [Flat.WF]) hist
+  have href : Refines lower (cacheAfter lower hist) (specAfter lower hist) := h0.1
+  have hw : Flat.WF lower (specAfter lower hist) := h0.2
+  -- cache lookups versus the reference store
+  have hofmem : ∀ e q, e ∈ specAfter lower hist → e.ident lower = q.ident lower → (cacheAfter lower hist).getUnique lower q = some e := by
+    intro e q he hid; rw [href.getUnique q]; exact Flat.getUnique_of_mem hw he hid
+  have hmemof : ∀ e q, (cacheAfter lower hist).getUnique lower q = some e → e ∈ specAfter lower hist ∧ e.ident lower = q.ident lower := by
+    intro e q hq; rw [href.getUnique q] at hq; exact ⟨Flat.getUnique_mem hq, Flat.getUnique_ident hq⟩
+  unfold Browser.onPurge
+  rw [hexp]
+  simp only [bind, Except.bind, pure, Except.pure]
+  generalize hus : l.map (fun r => (r, some r)) = us
+  have hgood : Browser.Good b.types (Browser.updateRecords lower possible c' now b us) :=
+    Browser.good_updateRecords lower possible ⟨rfl, by simp [hb, pendingKeys]⟩ _ _ _
+  have hpend := fun k => C04_pending_outcome lower possible b hb c' now us k
+  have hnoadds : ∀ k, ¬ ∃ u ∈ us, Browser.AddsAt possible b.types u k := by
+    rintro k ⟨u, hu, _, hn, _⟩
+    rw [← hus, List.mem_map] at hu
+    obtain ⟨r, _, rfl⟩ := hu
+    cases hn
+  have hrems : ∀ n t, (∃ u ∈ us, Browser.RemsAt possible now b.types u (n, t)) ↔
+      ∃ e ∈ l, e.type = 12 ∧ e.rdata = .ptr n ∧ e.name = t := by
+    intro n t
+    constructor
+    · rintro ⟨u, hu, hty, _, _, hrd, hm⟩
+      rw [← hus, List.mem_map] at hu
+      obtain ⟨e, he, rfl⟩ := hu
+      simp only [] at hty hrd hm
+      have hty' : e.type = 12 := by rw [← typePtr_eq]; exact hty
+      have hsh := hcw e e (hofmem e e ((hmem e).1 he).1 rfl) hty'
+      have := hwt.exact e.name hsh.2.2
+      change t ∈ b.types.filter (fun t' => (possible e.name).contains t') at hm
+      rw [this] at hm
+      exact ⟨e, he, hty', hrd, (List.mem_singleton.1 hm).symm⟩
+    · rintro ⟨e, he, hty, hrd, hnm⟩
+      have hsh := hcw e e (hofmem e e ((hmem e).1 he).1 rfl) hty
+      refine ⟨(e, some e), by rw [← hus]; exact List.mem_map.2 ⟨e, he, rfl⟩, by rw [typePtr_eq]; exact hty, by simp,
+        ((hmem e).1 he).2, hrd, ?_⟩
+      change t ∈ b.types.filter (fun t' => (possible e.name).contains t')
+      rw [hwt.exact e.name hsh.2.2]; simp [hnm]
+  refine ⟨_, rfl, hc'.symm, rfl, Browser.updateRecords_types lower possible rfl _ _ _, ?_⟩
+  simp only []
+  refine ⟨fun t ht a => ?_, fun t ht a => ?_, ?_, complete_nodup _ hgood.2⟩
+  · -- no Added
+    constructor
+    · rintro ⟨cb, hcb, hch, _, _⟩
+      rw [mem_complete_iff _ hgood.2, hch] at hcb
+      exact absurd ((hpend (cb.name, cb.type)).1.1 hcb) (hnoadds _)
+    · rintro ⟨hbf, haf⟩
+      rw [hget] at haf
+      cases hq : (cacheAfter lower hist).getUnique lower (ptrRec t a) with
+      | none => rw [hq] at haf; cases haf
+      | some e => rw [hq] at hbf; cases hbf
+  · constructor
+    · rintro ⟨cb, hcb, hch, hct, hcn⟩
+      rw [mem_complete_iff _ hgood.2, hch] at hcb
+      obtain ⟨e, he, hty, hrd, hnm⟩ := (hrems cb.name cb.type).1 ((hpend (cb.name, cb.type)).2.1 hcb).2
+      have hes := (hmem e).1 he
+      have hsh := hcw e e (hofmem e e hes.1 rfl) hty
+      have hid : e.ident lower = (ptrRec t a).ident lower := ident_ptrRec_of hty hsh.2.1 (hnm.trans hct) hrd hcn
+      have hq := hofmem e (ptrRec t a) hes.1 hid
+      rw [hget, hq]
+      simp [hes.2]
+    · rintro ⟨hbf, haf⟩
+      cases hq : (cacheAfter lower hist).getUnique lower (ptrRec t a) with
+      | none => rw [hq] at hbf; cases hbf
+      | some e =>
+        rw [hget, hq] at haf
+        simp only [] at haf
+        have hx : e.isExpired now = true := by
+          by_cases hx : e.isExpired now = true
+          · exact hx
+          · rw [if_neg hx] at haf; cases haf
+        obtain ⟨hes, hid⟩ := hmemof e _ hq
+        obtain ⟨h1, h2, h3, h4⟩ := of_ident_ptrRec hid
+        have hsh := hcw _ e hq h1
+        obtain ⟨a0, ha0⟩ := hsh.1
+        have hnm : e.name = t := hwt.caseDistinct _ hsh.2.2 _ ht h3
+        have hla : ∃ a', e.rdata = .ptr a' ∧ lower a' = lower a := by
+          rcases h4 with h4 | h4
+          · exact h4
+          · exact absurd ⟨a0, ha0⟩ h4
+        obtain ⟨a', hrd, hl⟩ := hla
+        have hrem := (hrems a' t).2 ⟨e, (hmem e).2 ⟨hes, hx⟩, h1, hrd, hnm⟩
+        have hR := (hpend (a', t)).2.2 ⟨hnoadds _, hrem⟩
+        exact ⟨⟨.removed, t, a'⟩, (mem_complete_iff _ hgood.2 _).2 hR, rfl, rfl, hl⟩
+  · intro cb hcb cb' hcb' hne hne' hty hnm
+    rw [mem_complete_iff _ hgood.2] at hcb hcb'
+    have hsrc : ∀ c : Callback, c.change ≠ .updated →
+        pendingGet (Browser.updateRecords lower possible c' now b us).pending (c.name, c.type) = some c.change →
+        c.change = .removed ∧ ∃ e ∈ l, e.type = 12 ∧ e.rdata = .ptr c.name ∧ e.name = c.type := by
+      intro c hcne hg
+      cases hch : c.change with
+      | updated => exact absurd hch hcne
+      | added => rw [hch] at hg; exact absurd ((hpend (c.name, c.type)).1.1 hg) (hnoadds _)
+      | removed => rw [hch] at hg; exact ⟨rfl, (hrems c.name c.type).1 ((hpend (c.name, c.type)).2.1 hg).2⟩
+    obtain ⟨hc1, e, he, hety, herd, henm⟩ := hsrc cb hne hcb
+    obtain ⟨hc2, e', he', hety', herd', henm'⟩ := hsrc cb' hne' hcb'
+    have hes := (hmem e).1 he
+    have hes' := (hmem e').1 he'
+    have hsh := hcw e e (hofmem e e hes.1 rfl) hety
+    have hsh' := hcw e' e' (hofmem e' e' hes'.1 rfl) hety'
+    have hid : e.ident lower = (ptrRec cb.type cb.name).ident lower := ident_ptrRec_of hety hsh.2.1 henm herd rfl
+    have hid' : e'.ident lower = (ptrRec cb.type cb.name).ident lower :=
+      ident_ptrRec_of hety' hsh'.2.1 (henm'.trans hty.symm) herd' hnm.symm
+    have hee : e = e' := hw.eq_of_ident hes.1 hes'.1 (hid.trans hid'.symm)
+    subst hee
+    rw [herd] at herd'
+    have hname : cb.name = cb'.name := by injection herd'
+    cases cb; cases cb'; simp_all
+
+/-- the initial replay at browser creation: only Added, exactly for the cached pointer records -/
+theorem start_exact {types : List String} (hwt : WFTypes lower possible types) (pre : List Event)
+    (hcw : CachedWF lower types (cacheAfter lower pre)) (t0 : Ms)
+    (hfresh : ∀ q e, (cacheAfter lower pre).getUnique lower q = some e → e.type = 12 → e.isExpired t0 = false) :
+    (Browser.start lower possible (cacheAfter lower pre) t0 types).1.pending = []
+    ∧ (Browser.start lower possible (cacheAfter lower pre) t0 types).1.types = types
+    ∧ BatchExact lower types (Browser.start lower possible (cacheAfter lower pre) t0 types).2
+        (fun _ _ => false) (fun t a => ((cacheAfter lower pre).getUnique lower (ptrRec t a)).isSome) := by
+  have h0 := (Refines.empty lower).runEvents (by simp [Flat.WF]) pre
+  have href : Refines lower (cacheAfter lower pre) (specAfter lower pre) := h0.1
+  have hw : Flat.WF lower (specAfter lower pre) := h0.2
+  have hofmem : ∀ e q, e ∈ specAfter lower pre → e.ident lower = q.ident lower → (cacheAfter lower pre).getUnique lower q = some e := by
+    intro e q he hid; rw [href.getUnique q]; exact Flat.getUnique_of_mem hw he hid
+  have hmemof : ∀ e q, (cacheAfter lower pre).getUnique lower q = some e → e ∈ specAfter lower pre ∧ e.ident lower = q.ident lower := by
+    intro e q hq; rw [href.getUnique q] at hq; exact ⟨Flat.getUnique_mem hq, Flat.getUnique_ident hq⟩
+  let b : Browser := { types := types }
+  have hb : b.pending = [] := rfl
+  generalize hus : Browser.replayList lower (cacheAfter lower pre) t0 types = us
+  have hstart : Browser.start lower possible (cacheAfter lower pre) t0 types
+      = Browser.complete (Browser.updateRecords lower possible (cacheAfter lower pre) t0 b us) := by
+    unfold Browser.start
+    simp only [hus]
+    cases us with
+    | nil => rfl
+    | cons u rest => rfl
+  rw [hstart]
+  have hgood : Browser.Good types (Browser.updateRecords lower possible (cacheAfter lower pre) t0 b us) :=
+    Browser.good_updateRecords lower possible ⟨rfl, by simp [pendingKeys, b]⟩ _ _ _
+  have hpend := fun k => C04_pending_outcome lower possible b hb (cacheAfter lower pre) t0 us k
+  have hmemus : ∀ u, u ∈ us ↔ ∃ t' ∈ types, ∃ r ∈ specAfter lower pre, lower r.name = lower t' ∧ r.isExpired t0 = false
+      ∧ r.class_ = 1 ∧ r.type = 12 ∧ r.name = t' ∧ u = (r, none) := by
+    intro u
+    rw [← hus]
+    unfold Browser.replayList
+    rw [List.mem_flatMap]
+    constructor
+    · rintro ⟨t', ht', hu⟩
+      rw [List.mem_map] at hu
+      obtain ⟨r, hr, rfl⟩ := hu
+      rw [List.mem_filter, href.entriesWithName, Flat.entriesWithName, List.mem_filter] at hr
+      simp only [Bool.and_eq_true, Bool.not_eq_true', decide_eq_true_eq] at hr
+      have hab := (answeredBy_iff t' r).1 hr.2.2
+      exact ⟨t', ht', r, hr.1.1, hr.1.2, hr.2.1, hab.1, hab.2.1, hab.2.2, rfl⟩
+    · rintro ⟨t', ht', r, hr, hln, hx, hc, hty, hnm, rfl⟩
+      refine ⟨t', ht', List.mem_map.2 ⟨r, ?_, rfl⟩⟩
+      rw [List.mem_filter, href.entriesWithName, Flat.entriesWithName, List.mem_filter]
+      simp only [Bool.and_eq_true, Bool.not_eq_true', decide_eq_true_eq]
+      exact ⟨⟨hr, hln⟩, hx, (answeredBy_iff t' r).2 ⟨hc, hty, hnm⟩⟩
+  have hnorems : ∀ k, ¬ ∃ u ∈ us, Browser.RemsAt possible t0 b.types u k := by
+    rintro k ⟨u, hu, _, hn, _⟩
+    obtain ⟨_, _, r, _, _, _, _, _, _, rfl⟩ := (hmemus u).1 hu
+    exact hn rfl
+  have hadds : ∀ n t, (∃ u ∈ us, Browser.AddsAt possible b.types u (n, t)) ↔
+      ∃ r ∈ specAfter lower pre, r.type = 12 ∧ r.class_ = 1 ∧ r.rdata = .ptr n ∧ r.name = t ∧ t ∈ types ∧ r.isExpired t0 = false := by
+    intro n t
+    constructor
+    · rintro ⟨u, hu, _, _, hrd, hm⟩
+      obtain ⟨t', ht', r, hr, _, hx, hc, hty, hnm, rfl⟩ := (hmemus u).1 hu
+      simp only [] at hrd hm
+      change t ∈ types.filter (fun t'' => (possible r.name).contains t'') at hm
+      rw [hnm, hwt.exact t' ht'] at hm
+      have := List.mem_singleton.1 hm
+      subst this
+      exact ⟨r, hr, hty, hc, hrd, hnm, ht', hx⟩
+    · rintro ⟨r, hr, hty, hc, hrd, hnm, ht, hx⟩
+      refine ⟨(r, none), (hmemus _).2 ⟨t, ht, r, hr, by rw [hnm], hx, hc, hty, hnm, rfl⟩, by rw [typePtr_eq]; exact hty, rfl, hrd, ?_⟩
+      change t ∈ types.filter (fun t'' => (possible r.name).contains t'')
+      rw [hnm, hwt.exact t ht]; simp
+  refine ⟨rfl, Browser.updateRecords_types lower possible rfl _ _ _, ?_⟩
+  refine ⟨fun t ht a => ?_, fun t ht a => ?_, ?_, complete_nodup _ hgood.2⟩
+  · constructor
+    · rintro ⟨cb, hcb, hch, hct, hcn⟩
+      rw [mem_complete_iff _ hgood.2, hch] at hcb
+      obtain ⟨r, hr, hty, hc, hrd, hnm, _, _⟩ := (hadds cb.name cb.type).1 ((hpend (cb.name, cb.type)).1.1 hcb)
+      have hid : r.ident lower = (ptrRec t a).ident lower := ident_ptrRec_of hty hc (hnm.trans hct) hrd hcn
+      exact ⟨rfl, by rw [hofmem r _ hr hid]; rfl⟩
+    · rintro ⟨_, haf⟩
+      cases hq : (cacheAfter lower pre).getUnique lower (ptrRec t a) with
+      | none => rw [hq] at haf; cases haf
+      | some e =>
+        obtain ⟨hes, hid⟩ := hmemof e _ hq
+        obtain ⟨h1, h2, h3, h4⟩ := of_ident_ptrRec hid
+        have hsh := hcw _ e hq h1
+        obtain ⟨a0, ha0⟩ := hsh.1
+        have hnm : e.name = t := hwt.caseDistinct _ hsh.2.2 _ ht h3
+        have hla : ∃ a', e.rdata = .ptr a' ∧ lower a' = lower a := by
+          rcases h4 with h4 | h4
+          · exact h4
+          · exact absurd ⟨a0, ha0⟩ h4
+        obtain ⟨a', hrd, hl⟩ := hla
+        have hA := (hpend (a', t)).1.2 ((hadds a' t).2 ⟨e, hes, h1, h2, hrd, hnm, ht, hfresh _ e hq h1⟩)
+        exact ⟨⟨.added, t, a'⟩, (mem_complete_iff _ hgood.2 _).2 hA, rfl, rfl, hl⟩
+  · constructor
+    · rintro ⟨cb, hcb, hch, _, _⟩
+      rw [mem_complete_iff _ hgood.2, hch] at hcb
+      exact absurd ((hpend (cb.name, cb.type)).2.1 hcb).2 (hnorems _)
+    · rintro ⟨h, _⟩; cases h
+  · intro cb hcb cb' hcb' hne hne' hty hnm
+    rw [mem_complete_iff _ hgood.2] at hcb hcb'
+    have hsrc : ∀ c : Callback, c.change ≠ .updated →
+        pendingGet (Browser.updateRecords lower possible (cacheAfter lower pre) t0 b us).pending (c.name, c.type) = some c.change →
+        c.change = .added ∧ ∃ r ∈ specAfter lower pre, r.type = 12 ∧ r.class_ = 1 ∧ r.rdata = .ptr c.name ∧ r.name = c.type := by
+      intro c hcne hg
+      cases hch : c.change with
+      | updated => exact absurd hch hcne
+      | removed => rw [hch] at hg; exact absurd ((hpend (c.name, c.type)).2.1 hg).2 (hnorems _)
+      | added =>
+        rw [hch] at hg
+        obtain ⟨r, hr, h1, h2, h3, h4, _, _⟩ := (hadds c.name c.type).1 ((hpend (c.name, c.type)).1.1 hg)
+        exact ⟨rfl, r, hr, h1, h2, h3, h4⟩
+    obtain ⟨hc1, e, he, hety, hec, herd, henm⟩ := hsrc cb hne hcb
+    obtain ⟨hc2, e', he', hety', hec', herd', henm'⟩ := hsrc cb' hne' hcb'
+    have hid : e.ident lower = (ptrRec cb.type cb.name).ident lower := ident_ptrRec_of hety hec henm herd rfl
+    have hid' : e'.ident lower = (ptrRec cb.type cb.name).ident lower :=
+      ident_ptrRec_of hety' hec' (henm'.trans hty.symm) herd' hnm.symm
+    have hee : e = e' := hw.eq_of_ident he he' (hid.trans hid'.symm)
+    subst hee
+    rw [herd] at herd'
+    have hname : cb.name = cb'.name := by injection herd'
+    cases cb; cases cb'; simp_all
+
+/-! #### the induction over the history -/
+
+/-- what holds at every quiescent point of a run whose cache has lived through `hist` -/
+structure RunInv (types : List String) (hist : List Event) (st : BrowserRun) : Prop where
+  hcache : st.cache = cacheAfter lower hist
+  hpending : st.browser.pending = []
+  htypes : st.browser.types = types
+  halt : ∀ t ∈ types, ∀ a, alternates (changesFor lower st.batches t a) = true
+  hlive : ∀ t ∈ types, ∀ a, reportedLive lower st.batches t a = (st.cache.getUnique lower (ptrRec t a)).isSome
+
+theorem runInv_step {types : List String} (hwt : WFTypes lower possible types) (hist : List Event)
+    (hwf : ∀ ev ∈ hist, WFEvent lower types ev) (st : BrowserRun) (h : RunInv lower types hist st)
+    (ev : Event) (hev : WFEvent lower types ev) :
+    RunInv lower types (hist ++ [ev]) (BrowserRun.step lower possible st ev) := by
+  have hcw := cachedWF_after lower hist hwf
+  cases ev with
+  | datagram now recs =>
+    obtain ⟨o, ho, hoc, hop, hot, hex⟩ := datagram_step_exact lower possible hwt hist st.browser h.hpending h.htypes now recs hev
+    have hstep : BrowserRun.step lower possible st (.datagram now recs)
+        = { cache := o.cache, browser := o.browser, batches := st.batches ++ [o.callbacks] } := by
       unfold BrowserRun.step
-      cases ev with
-      | datagram now recs =>
-        simp only []
-        cases hd : Browser.onDatagram lower possible st.cache st.browser now recs with
-        | error e => exact h
-        | ok o =>
-          simp only []
-          unfold Browser.onDatagram at hd
-          cases hi : ingest lower (Cache.ops lower) st.cache now recs with
-          | error e => rw [hi] at hd; cases hd
-          | ok out =>
-            rw [hi] at hd
-            simp only [bind, Except.bind] at hd
-            cases hc : out.call1 with
-            | none => rw [hc] at hd; cases hd; exact h
-            | some call =>
-              rw [hc] at hd
-              cases hd
-              exact ⟨rfl, Browser.updateRecords_types lower possible h.2 _ _ _⟩
-      | purge now =>
-        simp only []
-        cases hd : Browser.onPurge lower possible st.cache st.browser now with
-        | error e => exact h
-        | ok o =>
-          simp only []
-          unfold Browser.onPurge at hd
-          cases hi : expire (Cache.ops lower) st.cache now with
-          | error e => rw [hi] at hd; cases hd
-          | ok out =>
-            rw [hi] at hd
-            cases hd
-            exact ⟨rfl, Browser.updateRecords_types lower possible h.2 _ _ _⟩
-  exact gen _ ⟨rfl, rfl⟩
+      simp only []
+      rw [h.hcache, ho]
+    rw [hstep]
+    refine ⟨hoc, hop, hot, fun t ht a => ?_, fun t ht a => ?_⟩
+    · exact (live_step lower hex ht a (h.halt t ht a) (by rw [h.hlive t ht a, h.hcache])).1
+    · exact (live_step lower hex ht a (h.halt t ht a) (by rw [h.hlive t ht a, h.hcache])).2
+  | purge now =>
+    obtain ⟨o, ho, hoc, hop, hot, hex⟩ := purge_step_exact lower possible hwt hist hcw st.browser h.hpending h.htypes now
+    have hstep : BrowserRun.step lower possible st (.purge now)
+        = { cache := o.cache, browser := o.browser, batches := st.batches ++ [o.callbacks] } := by
+      unfold BrowserRun.step
+      simp only []
+      rw [h.hcache, ho]
+    rw [hstep]
+    refine ⟨hoc, hop, hot, fun t ht a => ?_, fun t ht a => ?_⟩
+    · exact (live_step lower hex ht a (h.halt t ht a) (by rw [h.hlive t ht a, h.hcache])).1
+    · exact (live_step lower hex ht a (h.halt t ht a) (by rw [h.hlive t ht a, h.hcache])).2
+
+theorem runInv_fold {types : List String} (hwt : WFTypes lower possible types) (evs : List Event) :
+    ∀ (hist : List Event) (st : BrowserRun), (∀ ev ∈ hist, WFEvent lower types ev) → RunInv lower types hist st →
+      (∀ ev ∈ evs, WFEvent lower types ev) →
+      RunInv lower types (hist ++ evs) (evs.foldl (BrowserRun.step lower possible) st) := by
+  induction evs with
+  | nil => intro hist st _ h _; simpa using h
+  | cons ev rest ih =>
+    intro hist st hwf h hevs
+    have hstep := runInv_step lower possible hwt hist hwf st h ev (hevs ev (by simp))
+    have := ih (hist ++ [ev]) (BrowserRun.step lower possible st ev)
+      (by intro e he; rcases List.mem_append.1 he with he | he
+          · exact hwf e he
+          · rw [List.mem_singleton.1 he]; exact hevs ev (by simp))
+      hstep (fun e he => hevs e (by simp [he]))
+    simpa using this
+
+theorem runInv_run {types : List String} {pre : List Event} {t0 : Ms} {evs : List Event}
+    (hwf : WFHistory lower possible types pre t0 evs) :
+    RunInv lower types (pre ++ evs) (browserRunFrom lower possible pre t0 types evs) := by
+  have hpre : ∀ ev ∈ pre, WFEvent lower types ev := fun ev he => hwf.events ev (by simp [he])
+  have hevs : ∀ ev ∈ evs, WFEvent lower types ev := fun ev he => hwf.events ev (by simp [he])
+  have hcw := cachedWF_after lower pre hpre
+  obtain ⟨hp, ht, hex⟩ := start_exact lower possible hwf.wfTypes pre hcw t0 hwf.fresh
+  unfold browserRunFrom
+  apply runInv_fold lower possible hwf.wfTypes evs pre _ hpre _ hevs
+  refine ⟨rfl, hp, ht, fun t htt a => ?_, fun t htt a => ?_⟩
+  · have := (live_step lower (batches := []) hex htt a (by rfl) (by rfl)).1
+    simpa using this
+  · have := (live_step lower (batches := []) hex htt a (by rfl) (by rfl)).2
+    simpa using this
+
+/-- **C04 (alternation).**  For every history satisfying the quantifier's restrictions — any datagrams and purges
+before the browser exists, the browser's creation with its initial replay of the cached records, then any
+interleaving of datagrams (new, refreshed, goodbye, cache-flush, duplicate, re-cased pointer records, other
+records) and purges at any instants — the Added/Removed callbacks delivered for one (type, instance), the
+instance compared case-insensitively, alternate, starting with Added. -/
+theorem C04_alternates : C04_alternates_statement lower possible := by
+  intro types pre t0 evs hwf t ht a
+  exact (runInv_run lower possible hwf).halt t ht a
+
+/-- **C04 (live set = cache).**  At every quiescent point of every such history (the end of any prefix), an
+instance has been reported Added and not since Removed exactly when the cache holds the pointer record
+`type → instance` (compared case-insensitively). -/
+theorem C04_live_eq_cache : C04_live_eq_cache_statement lower possible := by
+  intro types pre t0 evs hwf t ht a
+  exact (runInv_run lower possible hwf).hlive t ht a
+
+/-- and the cache of the run is the cache of C05/C06 after the same events -/
+theorem C04_run_cache {types : List String} {pre : List Event} {t0 : Ms} {evs : List Event}
+    (hwf : WFHistory lower possible types pre t0 evs) :
+    (browserRunFrom lower possible pre t0 types evs).cache = cacheAfter lower (pre ++ evs) :=
+  (runInv_run lower possible hwf).hcache
+
+/-! non-vacuity of the history hypotheses: a pointer record learned before the browser exists (replayed as Added at
+creation), then a goodbye datagram and a purge -/
+example :
+    let p : Rec := ⟨"_x._tcp.local.", 12, 1, false, 4500, 0, .ptr "a._x._tcp.local."⟩
+    WFHistory id (fun n => [n]) ["_x._tcp.local."] [.datagram 1000 [p]] 2000
+      [.datagram 3000 [{ p with ttl := 0 }], .purge 10000] := by
+  intro p
+  have hwd : ∀ r : Rec, r.name = "_x._tcp.local." → r.rdata = .ptr "a._x._tcp.local." → r.class_ = 1 →
+      WFDatagram id ["_x._tcp.local."] [r] := by
+    intro r hn hr hc
+    constructor
+    · intro r' hr' _
+      simp only [List.mem_singleton] at hr'; subst hr'
+      exact ⟨⟨_, hr⟩, hc, by simp [hn]⟩
+    · intro r1 h1 r2 h2 a a' _ _ hl; exact hl
+  refine ⟨⟨by decide, by decide⟩, ?_, ?_⟩
+  · intro ev hev
+    simp only [List.cons_append, List.nil_append, List.mem_cons, List.not_mem_nil, or_false] at hev
+    rcases hev with rfl | rfl | rfl
+    · exact hwd p rfl rfl rfl
+    · exact hwd _ rfl rfl rfl
+    · trivial
+  · intro q e hq _
+    have h0 := (Refines.empty id).runEvents (by simp [Flat.WF]) [.datagram 1000 [p]]
+    have hq' : Flat.getUnique id (specAfter id [.datagram 1000 [p]]) q = some e := by
+      have := h0.1.getUnique q
+      unfold cacheAfter at hq
+      unfold specAfter
+      rw [← this]; exact hq
+    have hmem := Flat.getUnique_mem hq'
+    have hs : specAfter id [.datagram 1000 [p]] = [p.setLife 1000 4500] := by decide
+    rw [hs] at hmem
+    simp only [List.mem_singleton] at hmem
+    subst hmem
+    decide
+
+/-- the creation-time restriction is needed: with an expired-but-unpurged pointer record cached when the browser
+is created, the initial replay skips it and the next purge reports Removed without a preceding Added -/
+example :
+    let p : Rec := ⟨"_x._tcp.local.", 12, 1, false, 1125, 0, .ptr "a._x._tcp.local."⟩
+    alternates (changesFor id (browserRunFrom id (fun n => [n]) [.datagram 1000 [p]] 2000000 ["_x._tcp.local."]
+      [.purge 2000001]).batches "_x._tcp.local." "a._x._tcp.local.") = false := by decide
 
 /-! non-vacuity of the hypotheses -/
 
